@@ -524,7 +524,162 @@ fn gen_cycles(rng: &mut Rng, nops: usize, budget: usize, cap: usize) -> Vec<Op> 
     ops
 }
 
+/// Component simulations (comp.rs): C19 block pool, C20 side metadata, C23 header metadata,
+/// C30 mmapper.
+fn gen_comp_spec(seed: u64, focus: &str, tier: &str) -> RunSpec {
+    let mut rng = Rng::new(seed ^ 0x6161_0000_0000_0000);
+    let mut wl = rng.fork(1);
+    let mut sr = rng.fork(2);
+    let big = tier != "quick";
+    let mut comp: Vec<u64> = Vec::new();
+    let mut programs: Vec<Vec<Op>> = Vec::new();
+    let shape;
+    let c = |k: u8, a: u64, b: u64, c: u64| Op::Comp { k, a, b, c };
+    match focus {
+        "C19" => {
+            let nworkers = rng.range(1, 4) as usize;
+            let npoppers = rng.range(1, 3) as usize;
+            comp.push(nworkers as u64);
+            // sometimes overflow the 256-entry thread-local queue
+            let overflow = rng.chance(1, 3);
+            let mut next_block = 0u64;
+            for t in 0..nworkers + npoppers {
+                let n = if t < nworkers && overflow { rng.range(300, if big { 900 } else { 600 }) } else { rng.range(20, if big { 400 } else { 150 }) } as usize;
+                let mut ops = Vec::new();
+                for _ in 0..n {
+                    if t < nworkers {
+                        match wl.below(if overflow { 12 } else { 10 }) {
+                            0..=1 => ops.push(c(2, 0, 0, 0)),
+                            2 if wl.chance(1, 4) => ops.push(c(4, 0, 0, 0)),
+                            _ => {
+                                ops.push(c(1, next_block, 0, 0));
+                                next_block += 1;
+                            }
+                        }
+                    } else {
+                        match wl.below(20) {
+                            0 => ops.push(c(4, 0, 0, 0)),
+                            _ => ops.push(c(2, 0, 0, 0)),
+                        }
+                    }
+                }
+                programs.push(ops);
+            }
+            shape = "block pool: worker-local pushes, global pops, flushes";
+        }
+        "C20" => {
+            let log_bits = *rng.pick(&[0u64, 0, 1, 1, 2, 2, 3, 4, 5, 6]);
+            // (a metadata-to-data ratio above 1/8 does not fit the reserved side-metadata range)
+            let log_region = (*rng.pick(&[3u64, 3, 4, 6, 9, 12])).max(log_bits);
+            let nfields = rng.range(8, 96);
+            comp = vec![log_bits, log_region, nfields];
+            let nthreads = rng.range(2, 4) as usize;
+            for _ in 0..nthreads {
+                let n = rng.range(20, if big { 600 } else { 200 }) as usize;
+                programs.push((0..n).map(|_| c(wl.range(1, 10) as u8, wl.below(nfields), wl.next_u64(), 0)).collect());
+            }
+            shape = "side metadata: neighbouring fields accessed atomically by several threads";
+        }
+        "C23" => {
+            // a random set of non-overlapping header fields around the header address
+            let origin = 64u64;
+            let mut fields: Vec<(i64, u64)> = Vec::new();
+            let mut used = vec![false; 2048];
+            let tries = rng.range(6, 40);
+            for _ in 0..tries {
+                let bits = *rng.pick(&[1u64, 1, 2, 2, 4, 4, 8, 8, 16, 32, 64]);
+                // bit offset relative to the header address, between -64*8 and +120*8
+                let byte = rng.range(0, 183) as i64 - 64;
+                let off = if bits < 8 {
+                    // inside one byte
+                    byte * 8 + (rng.below(8 / bits) * bits) as i64
+                } else {
+                    // aligned to its own size
+                    let bytes = (bits / 8) as i64;
+                    (byte.div_euclid(bytes) * bytes) * 8
+                };
+                let start = (origin as i64 * 8 + off) as usize;
+                if start + bits as usize > used.len() || (start..start + bits as usize).any(|b| used[b]) {
+                    continue;
+                }
+                for b in start..start + bits as usize {
+                    used[b] = true;
+                }
+                fields.push((off, bits));
+            }
+            if fields.is_empty() {
+                fields.push((0, 8));
+            }
+            fields.sort();
+            comp.push(origin);
+            comp.push(fields.len() as u64);
+            for (o, b) in fields.iter() {
+                comp.push((*o + 4096) as u64);
+                comp.push(*b);
+            }
+            comp.push(rng.next_u64());
+            let nthreads = rng.range(2, 6) as usize;
+            for _ in 0..nthreads {
+                let n = rng.range(20, if big { 600 } else { 200 }) as usize;
+                programs.push((0..n).map(|_| c(wl.range(1, 10) as u8, wl.below(64), wl.next_u64(), 0)).collect());
+            }
+            shape = "header metadata: bit fields sharing bytes accessed by several threads";
+        }
+        _ => {
+            // C30
+            let nthreads = rng.range(1, 4) as usize;
+            for t in 0..nthreads {
+                let n = rng.range(4, if big { 60 } else { 24 }) as usize;
+                programs.push(
+                    (0..n)
+                        .map(|_| {
+                            let k = if t == 0 && wl.chance(1, 3) { 1 } else { 2 };
+                            let pages = if wl.chance(1, 2) { wl.range(1, 64) } else { wl.range(512, 6 * 1024) };
+                            c(k, wl.below(16), pages, if wl.chance(1, 2) { 0 } else { wl.below(1024) })
+                        })
+                        .collect(),
+                );
+            }
+            shape = "mmapper: concurrent quarantine / ensure_mapped with failing mmap";
+        }
+    }
+    let strategy = match sr.below(10) {
+        0..=4 => Strategy::Random { num: 1, den: *sr.pick(&[2u32, 3, 10]) },
+        5..=7 => Strategy::Pct { depth: sr.range(1, 6) as u32, est_steps: 5_000 },
+        _ => Strategy::RoundRobin { quantum: sr.range(1, 20) as u32 },
+    };
+    let faults = focus == "C30" && sr.chance(2, 3);
+    let sched = SchedConfig {
+        seed: sr.next_u64(),
+        strategy,
+        step_cap: 6_000_000,
+        fair_after_step: u64::MAX,
+        spurious_ppm: 0,
+        stall_ppm: if sr.chance(1, 3) { 2000 } else { 0 },
+        stall_len: sr.range(5, 200) as u32,
+        mmap_fault_ppm: if faults { *sr.pick(&[50_000u32, 150_000, 400_000]) } else { 0 },
+        mmap_fault_after: if faults { sr.below(6) } else { u64::MAX },
+        clock_mode: 0,
+        site_mask: site::CLASS_LOCK | site::CLASS_BINDING | site::CLASS_SPIN | site::CLASS_META_RAW | site::CLASS_POOL,
+        max_run: *sr.pick(&[50u64, 200, 1000]),
+        meta_every: 1,
+        explicit: None,
+    };
+    RunSpec {
+        variant: variant_name().to_string(),
+        focus: focus.to_string(),
+        seed,
+        cfg: VmConfig { plan: "comp".into(), comp, ..Default::default() },
+        sched,
+        programs,
+        shape: shape.to_string(),
+    }
+}
+
 pub fn gen_spec(seed: u64, focus: &str, tier: &str) -> RunSpec {
+    if matches!(focus, "C19" | "C20" | "C23" | "C30") {
+        return gen_comp_spec(seed, focus, tier);
+    }
     let mut rng = Rng::new(seed ^ 0x5151_0000_0000_0000);
     let mut wl = rng.fork(1);
     let mut sr = rng.fork(2);
